@@ -85,7 +85,9 @@ theorem step_log_prefix (stop : Bool) (hooks : List Hook) (s : St) : s.log <+: (
   · exact List.prefix_refl _
   · split
     · exact List.prefix_append _ _
-    · exact List.prefix_append _ _
+    · split
+      · exact List.prefix_append _ _
+      · exact List.prefix_append _ _
     · split
       · exact List.prefix_append _ _
       · split
@@ -117,6 +119,9 @@ def leadingFails : List Bool → Nat
 
 def setFails (f : Nat → List Bool) (h : Nat) (v : List Bool) : Nat → List Bool :=
   fun x => if x == h then v else f x
+
+/-- the v0 rule is in `taskHandleHookRun` (a tree without it breaks every proof below) -/
+theorem v0RuleFact_true : v0RuleFact = true := rfl
 
 /-- what a task that is retried until it succeeds writes to the log -/
 def retryLog (t : Task) (script : List Bool) : List Ev :=
@@ -231,6 +236,7 @@ theorem prepare_no_combine (stop : Bool) (hooks : List Hook) (t : Task) (rest : 
     prepare stop hooks t rest =
       (!(t.isSync && (!(findHook hooks t.hook).v1 || !t.execSync)), t, rest) := by
   unfold prepare
+  simp only [v0RuleFact_true, Bool.true_and]
   simp only [combine_none stop t rest h]
   split
   · split <;> rfl
@@ -452,6 +458,7 @@ theorem prepare_grouped (stop : Bool) (hooks : List Hook) (h : Hook) (hfind : fi
         (bs.dropWhile (mergeable stop)).map (syncTask h.name) ++ Q) := by
   have htw := takeWhile_sync stop (syncTask h.name b) h.name rfl rfl Q hQ bs
   unfold prepare
+  simp only [v0RuleFact_true, Bool.true_and]
   have hs : (syncTask h.name b).isSync = true := rfl
   simp only [hs, show findHook hooks (syncTask h.name b).hook = h from hfind, hv,
     show (syncTask h.name b).execSync = true from he,
@@ -526,6 +533,7 @@ theorem run_sync_phase (stop : Bool) (hooks : List Hook) (h : Hook) (hfind : fin
           let rest := bs.map (syncTask h.name) ++ Q
           have hp : prepare stop hooks t rest = (true, t, rest) := by
             unfold prepare
+            simp only [v0RuleFact_true, Bool.true_and]
             have hs : t.isSync = true := rfl
             simp [hs, show t.hook = h.name from rfl, hfind, hv, show t.execSync = b.execSync from rfl, he,
               show t.group = b.group from rfl, hg]
@@ -585,6 +593,7 @@ theorem run_sync_phase (stop : Bool) (hooks : List Hook) (h : Hook) (hfind : fin
         let rest := bs.map (syncTask h.name) ++ Q
         have hp : prepare stop hooks t rest = (false, t, rest) := by
           unfold prepare
+          simp only [v0RuleFact_true, Bool.true_and]
           have hs : t.isSync = true := rfl
           have hx : (!(true && (!h.v1 || !b.execSync))) = false := by
             cases hv : h.v1 <;> cases he : b.execSync <;> simp_all
@@ -606,9 +615,14 @@ theorem run_sync_phase (stop : Bool) (hooks : List Hook) (h : Hook) (hfind : fin
 
 /-! ## Enabling the hooks one after the other -/
 
+/-- the failed attempts of a hook's `EnableKubernetesBindings` task: the entries of its fault sequence up to
+the first one that names no binding (such an attempt succeeds) -/
+def enableFailLog (h : Hook) : List Ev :=
+  (h.kfail.takeWhile (· < h.kube.length)).map (.enableKubeFail h.name)
+
 /-- what the main queue writes for one hook's `Enable…Bindings` tasks -/
 def hookPlan (stop : Bool) (h : Hook) (script : List Bool) : List Ev :=
-  (if h.kube.isEmpty then [] else .enableKube h.name :: (syncPlan stop h script h.kube).1) ++
+  (if h.kube.isEmpty then [] else enableFailLog h ++ .enableKube h.name :: (syncPlan stop h script h.kube).1) ++
   (if h.sched then [.enableSched h.name] else [])
 
 theorem enableQueue_head (hs : List Hook) : ∀ q, (enableQueue hs).head? = some q → q.typ ≠ .hookRun := by
@@ -628,10 +642,80 @@ theorem step_enableSched (stop : Bool) (hooks : List Hook) (n : Nat) (rest : Lis
     step stop hooks { queue := { typ := .enableSched, hook := n } :: rest, fails := fails, log := log } =
       { queue := rest, fails := fails, log := log ++ [.enableSched n] } := rfl
 
-theorem step_enableKube (stop : Bool) (hooks : List Hook) (n : Nat) (rest : List Task) (fails : Nat → List Bool)
-    (log : List Ev) :
-    step stop hooks { queue := { typ := .enableKube, hook := n } :: rest, fails := fails, log := log } =
-      { queue := (findHook hooks n).kube.map (syncTask n) ++ rest, fails := fails, log := log ++ [.enableKube n] } := rfl
+/-! `EnableKubernetesBindings`: an attempt without a fault, or with a fault position beyond the last
+binding, returns the Synchronization task of every binding in order; a fault at a binding returns nothing -/
+theorem enableBindings_none (h : Nat) : ∀ (bs : List KBinding) (i : Nat),
+    enableBindings h none i bs = some (bs.map (syncTask h))
+  | [], _ => rfl
+  | b :: bs, i => by
+    have := enableBindings_none h bs (i + 1)
+    simp [enableBindings, this]
+
+theorem enableBindings_beyond (h k : Nat) : ∀ (bs : List KBinding) (i : Nat), i + bs.length ≤ k →
+    enableBindings h (some k) i bs = some (bs.map (syncTask h))
+  | [], _, _ => rfl
+  | b :: bs, i, hl => by
+    have hl' : i + 1 + bs.length ≤ k := by simp at hl; omega
+    have hne : k ≠ i := by simp at hl; omega
+    have := enableBindings_beyond h k bs (i + 1) hl'
+    simp [enableBindings, hne, this]
+
+theorem enableBindings_fail (h k : Nat) : ∀ (bs : List KBinding) (i : Nat), i ≤ k → k < i + bs.length →
+    enableBindings h (some k) i bs = none
+  | [], i, h1, h2 => by simp at h2; omega
+  | b :: bs, i, h1, h2 => by
+    by_cases he : k = i
+    · subst he; simp [enableBindings]
+    · have := enableBindings_fail h k bs (i + 1) (by omega) (by simp at h2; omega)
+      simp [enableBindings, he, this]
+
+theorem step_enableKube_ok (stop : Bool) (hooks : List Hook) (n : Nat) (sc : List Nat) (rest ts : List Task)
+    (fails : Nat → List Bool) (log : List Ev)
+    (hb : enableBindings n sc.head? 0 (findHook hooks n).kube = some ts) :
+    step stop hooks { queue := { typ := .enableKube, hook := n, kfail := sc } :: rest, fails := fails, log := log } =
+      { queue := ts ++ rest, fails := fails, log := log ++ [.enableKube n] } := by
+  simp only [step, hb]
+
+theorem step_enableKube_fail (stop : Bool) (hooks : List Hook) (n : Nat) (sc : List Nat) (rest : List Task)
+    (fails : Nat → List Bool) (log : List Ev)
+    (hb : enableBindings n sc.head? 0 (findHook hooks n).kube = none) :
+    step stop hooks { queue := { typ := .enableKube, hook := n, kfail := sc } :: rest, fails := fails, log := log } =
+      { queue := { typ := .enableKube, hook := n, kfail := sc.tail } :: rest, fails := fails,
+        log := log ++ [.enableKubeFail n (sc.headD 0)] } := by
+  simp only [step, hb]
+
+/-- **the retried `EnableKubernetesBindings` task**: whatever its fault sequence, after finitely many
+iterations the task has failed once per valid fault, then succeeded, and the head of the queue holds the
+Synchronization task of EVERY binding of the hook, in binding order — a failed attempt leaves nothing
+behind and takes nothing away from the successful one. -/
+theorem run_enable_retry (stop : Bool) (hooks : List Hook) (n : Nat) (rest : List Task) (fails : Nat → List Bool) :
+    ∀ (sc : List Nat) (log : List Ev),
+      ∃ k, runFuel stop hooks k
+          { queue := { typ := .enableKube, hook := n, kfail := sc } :: rest, fails := fails, log := log } =
+        { queue := (findHook hooks n).kube.map (syncTask n) ++ rest, fails := fails,
+          log := log ++ (sc.takeWhile (· < (findHook hooks n).kube.length)).map (.enableKubeFail n) ++ [.enableKube n] } := by
+  intro sc
+  induction sc with
+  | nil =>
+    intro log
+    refine ⟨1, ?_⟩
+    rw [runFuel_one, step_enableKube_ok stop hooks n [] rest _ fails log (enableBindings_none n _ 0)]
+    simp
+  | cons a sc ih =>
+    intro log
+    by_cases ha : a < (findHook hooks n).kube.length
+    · obtain ⟨k, hk⟩ := ih (log ++ [.enableKubeFail n a])
+      refine ⟨1 + k, ?_⟩
+      rw [runFuel_add, runFuel_one,
+        step_enableKube_fail stop hooks n (a :: sc) rest fails log
+          (enableBindings_fail n a _ 0 (Nat.zero_le _) (by simpa using ha))]
+      simp only [List.tail_cons, List.headD_cons]
+      rw [hk]
+      simp [ha, List.append_assoc]
+    · refine ⟨1, ?_⟩
+      rw [runFuel_one, step_enableKube_ok stop hooks n (a :: sc) rest _ fails log
+        (enableBindings_beyond n a _ 0 (by simp; omega))]
+      simp [ha]
 
 theorem run_hook_phase (stop : Bool) (hooks : List Hook) (h : Hook) (hfind : findHook hooks h.name = h)
     (Q : List Task) (hQ : ∀ q, Q.head? = some q → q.typ ≠ .hookRun) (fails : Nat → List Bool) (log : List Ev) :
@@ -661,17 +745,27 @@ theorem run_hook_phase (stop : Bool) (hooks : List Hook) (h : Hook) (hfind : fin
       · simp [hs] at hq; subst hq; simp
       · simp only [hs, Bool.false_eq_true, if_false, List.nil_append] at hq; exact hQ q hq
     obtain ⟨k1, hk1⟩ := run_sync_phase stop hooks h hfind _ hQ2 h.kube.length h.kube (Nat.le_refl _) fails
-      (log ++ [.enableKube h.name])
+      (log ++ enableFailLog h ++ [.enableKube h.name])
     obtain ⟨k2, hk2⟩ := hsched (setFails fails h.name (syncPlan stop h (fails h.name) h.kube).2)
-      (log ++ [.enableKube h.name] ++ (syncPlan stop h (fails h.name) h.kube).1)
-    refine ⟨1 + (k1 + k2), setFails fails h.name (syncPlan stop h (fails h.name) h.kube).2, ?_, ?_⟩
-    · rw [runFuel_add, runFuel_one]
+      (log ++ enableFailLog h ++ [.enableKube h.name] ++ (syncPlan stop h (fails h.name) h.kube).1)
+    obtain ⟨k0, hk0⟩ := run_enable_retry stop hooks h.name
+      ((if h.sched then [({ typ := .enableSched, hook := h.name } : Task)] else []) ++ Q) fails h.kfail log
+    rw [hfind] at hk0
+    refine ⟨k0 + (k1 + k2), setFails fails h.name (syncPlan stop h (fails h.name) h.kube).2, ?_, ?_⟩
+    · rw [runFuel_add]
       have hq0 : ({ queue := enableTasks h ++ Q, fails := fails, log := log } : St) =
-          { queue := { typ := .enableKube, hook := h.name } ::
+          { queue := { typ := .enableKube, hook := h.name, kfail := h.kfail } ::
               ((if h.sched then [({ typ := .enableSched, hook := h.name } : Task)] else []) ++ Q),
             fails := fails, log := log } := by
         simp [enableTasks, hk]
-      rw [hq0, step_enableKube, hfind, runFuel_add, hk1, hk2]
+      have hk0' : runFuel stop hooks k0
+          { queue := { typ := .enableKube, hook := h.name, kfail := h.kfail } ::
+              ((if h.sched then [({ typ := .enableSched, hook := h.name } : Task)] else []) ++ Q),
+            fails := fails, log := log } =
+          { queue := h.kube.map (syncTask h.name) ++
+              ((if h.sched then [({ typ := .enableSched, hook := h.name } : Task)] else []) ++ Q),
+            fails := fails, log := log ++ enableFailLog h ++ [.enableKube h.name] } := hk0
+      rw [hq0, hk0', runFuel_add, hk1, hk2]
       apply St.ext'
       · rfl
       · rfl
